@@ -15,7 +15,12 @@ type Value interface{}
 
 // StrV is a Go string: bytes Arr[Off .. Off+Len). SMT arrays are values, so
 // sharing the array term is a snapshot (copy) — strings are immutable.
-type StrV struct{ Arr, Off, Len *Term }
+type StrV struct {
+	Arr, Off, Len *Term
+	Lit   *string // literal content, when the string is a compile-time constant
+	Cat   []StrV  // operands, when the string was built by concatenation
+	Taint bool    // carries secret material (C18)
+}
 
 // SliceV is a slice header over a backing object.
 type SliceV struct {
